@@ -706,7 +706,7 @@ def project(graph):
             else:
                 t = str(e.get_type())
                 v = value_encoding(val)
-                if t.startswith("integer") and v["c"] == "float":
+                if t.startswith("integer") and v["c"] in ("float", "complex"):
                     # ill-typed by construction (a float value with an integer like, produced by constant folding): not judged
                     v = dict(NOV, c="unsupported", name="float value in an integer-typed constant")
                 rec = dict(k="constant", a=[], t=t, n="", v=v)
